@@ -167,6 +167,7 @@ class Facts:
         self.cfgs = {}       # q -> [cfg]
         self.sts = {}        # q -> [st]
         self.tables = {}     # q -> table fact
+        self.tables_by = {}  # (q, file) -> table fact (file-static tables share names)
         self.classes = {}
         self.enums = {}
         self.gvars = {}
@@ -192,6 +193,7 @@ class Facts:
                         self.sts.setdefault(d["q"], []).append(d)
                     elif k == "table":
                         self.tables[d["q"]] = d
+                        self.tables_by[(d["q"], d["file"])] = d
                     elif k == "cls":
                         self.classes[d["q"]] = d
                     elif k == "enum":
@@ -241,8 +243,8 @@ class Facts:
             raise AnalysisBroken("no statement tree for anchor function %s" % q)
         return c[0]
 
-    def table(self, q):
-        t = self.tables.get(q)
+    def table(self, q, file=None):
+        t = self.tables.get(q) if file is None else self.tables_by.get((q, file))
         if t is None or t.get("v") is None:
             raise AnalysisBroken("constant table %s not found or not constant-evaluable" % q)
         return t
